@@ -35,7 +35,7 @@ theorem link_tiles
     have hpn : w.tree n = w.tree p → w.pos n ≠ w.pos p := fun ht hp => hnp (G.wf.inj n p ht hp)
     rcases rn with rn | rn | rn | rn | rn
     · -- inside x's tree: uniform shift by P
-      have := tiles_shift w.pos w.size (pasteWit w x p P).pos (pasteWit w x p P).size P (h.kids n) _ _ hT (by
+      have := tiles_shift_lk w.pos w.size (pasteWit w x p P).pos (pasteWit w x p P).size P (h.kids n) _ _ hT (by
         intro k hk
         have := hkin k hk; have := G.region k
         omega)
@@ -65,7 +65,7 @@ theorem link_tiles
       have e2 : (pasteWit w x p P).pos n + (pasteWit w x p P).size n = w.pos n + w.size n := by omega
       rw [e1, e2]; exact this
     · -- after the insertion point: uniform shift by size x
-      have := tiles_shift w.pos w.size (pasteWit w x p P).pos (pasteWit w x p P).size (w.size x) (h.kids n) _ _ hT (by
+      have := tiles_shift_lk w.pos w.size (pasteWit w x p P).pos (pasteWit w x p P).size (w.size x) (h.kids n) _ _ hT (by
         intro k hk
         have := hkin k hk; have := G.region k; have := G.wf.size_pos k
         omega)
